@@ -145,4 +145,506 @@ theorem notify_inv (s : DState) (h : SInv s) : Inv (notifyChildren (notifyServer
       simp only [notifyChildren_adv, notifyServer_adv]
       exact ⟨this.1, Or.inl this.2⟩
 
+/-! ### closing a connection -/
+
+theorem erase_inv (s : DState) (c : ConnId) (h : Inv s) (hp : s.parent ≠ some c) :
+    Inv { s with children := s.children.erase c, live := s.live.erase c } := by
+  have hs := h.str
+  refine ⟨⟨?_, ?_, ?_, ?_, ?_, ?_, ?_⟩, ⟨?_, ?_⟩⟩
+  · intro d hd; exact hs.fresh d (List.mem_of_mem_erase hd)
+  · exact hs.liveNodup.erase c
+  · exact hs.childNodup.erase c
+  · intro p hpp
+    have hne : p ≠ c := by intro e; subst e; exact hp hpp
+    exact (List.mem_erase_of_ne hne).2 (hs.parentLive p hpp)
+  · intro d hd
+    have hd' := (hs.childNodup.mem_erase_iff).1 hd
+    exact (List.mem_erase_of_ne hd'.1).2 (hs.childLive d hd'.2)
+  · exact hs.parentComplete
+  · intro p hpp d hd; exact hs.pnc p hpp d (List.mem_of_mem_erase hd)
+  · intro me hm; exact h.told.toldS me hm
+  · intro me hm d hd; exact h.told.toldC me hm d (List.mem_of_mem_erase hd)
+
+theorem sinv_noParent (s : DState) (h : SInv s) : SInv { s with parent := none } := by
+  refine ⟨h.fresh, h.liveNodup, h.childNodup, ?_, h.childLive, ?_, ?_⟩
+  · intro c hc; cases hc
+  · intro c hc; cases hc
+  · intro c hc; cases hc
+
+theorem closePeer_inv (s : DState) (c : ConnId) (h : Inv s) : Inv (closePeer s c) := by
+  unfold closePeer
+  split
+  · by_cases hp : s.parent = some c
+    · simp only [hp, if_true]
+      exact erase_inv _ c (notify_inv _ (sinv_noParent s h.str)) (by simp)
+    · simp only [hp, if_false]
+      exact erase_inv s c h hp
+  · exact h
+
+theorem foldl_closePeer_inv (l : List ConnId) (s : DState) (h : Inv s) : Inv (l.foldl closePeer s) := by
+  induction l generalizing s with
+  | nil => exact h
+  | cons c l ih => exact ih _ (closePeer_inv s c h)
+
+theorem reset_inv (s : DState) (h : Inv s) : Inv (reset s) := by
+  unfold reset
+  have h1 := foldl_closePeer_inv s.children s h
+  simp only
+  split
+  · exact closePeer_inv _ _ h1
+  · exact h1
+
+/-! ### taking a parent -/
+
+theorem setParent_inv (s : DState) (c : ConnId) (h : Inv s) (hc : c ∈ s.live)
+    (hl : (s.level c).isSome) (hr : (s.root c).isSome) (hn : s.isChildName (s.name c) = false) :
+    Inv (setParent s c) := by
+  unfold setParent
+  apply notify_inv
+  have hs := h.str
+  refine ⟨?_, ?_, hs.childNodup, ?_, ?_, ?_, ?_⟩
+  · intro d hd; exact hs.fresh d (List.mem_filter.1 hd).1
+  · exact hs.liveNodup.filter _
+  · intro p hp
+    have : c = p := by simpa using hp
+    subst this
+    simp [List.mem_filter, hc]
+  · intro d hd
+    simp only [List.mem_filter, decide_eq_true_eq]
+    exact ⟨hs.childLive d hd, Or.inr hd⟩
+  · intro p hp
+    have : c = p := by simpa using hp
+    subst this
+    exact ⟨hl, hr⟩
+  · intro p hp d hd
+    have : c = p := by simpa using hp
+    subst this
+    unfold DState.isChildName at hn
+    rw [List.any_eq_false] at hn
+    simpa using hn d hd
+
+theorem checkNewParent_inv (s : DState) (c : ConnId) (h : Inv s) (hc : c ∈ s.live) :
+    Inv (checkNewParent s c) := by
+  unfold checkNewParent
+  split
+  · rename_i hlr
+    split
+    · rename_i hpn
+      exact setParent_inv s c h hc hlr.1 hlr.2 hpn.2
+    · exact closePeer_inv s c h
+  · exact h
+
+/-! ### announcements -/
+
+/-- new announced values on connection `c`, complete there -/
+theorem sinv_announce (s : DState) (c : ConnId) (L : ConnId → Option Nat) (R : ConnId → Option Name)
+    (h : SInv s) (hoff : ∀ d, d ≠ c → L d = s.level d ∧ R d = s.root d)
+    (hL : (L c).isSome) (hR : (R c).isSome) : SInv { s with level := L, root := R } := by
+  refine ⟨h.fresh, h.liveNodup, h.childNodup, h.parentLive, h.childLive, ?_, h.pnc⟩
+  intro p hp
+  by_cases e : p = c
+  · subst e; exact ⟨hL, hR⟩
+  · have := hoff p e
+    show (L p).isSome ∧ (R p).isSome
+    rw [this.1, this.2]; exact h.parentComplete p hp
+
+/-- new announced values on a connection that is not the parent's -/
+theorem inv_announce (s : DState) (c : ConnId) (L : ConnId → Option Nat) (R : ConnId → Option Name)
+    (h : Inv s) (hoff : ∀ d, d ≠ c → L d = s.level d ∧ R d = s.root d) (hp : s.parent ≠ some c) :
+    Inv { s with level := L, root := R } := by
+  have hs := h.str
+  have ha : ∀ me, DState.adv { s with level := L, root := R } me = s.adv me := fun me =>
+    adv_congr s _ me rfl (fun p hpp => hoff p (by intro e; subst e; exact hp hpp))
+  refine ⟨⟨hs.fresh, hs.liveNodup, hs.childNodup, hs.parentLive, hs.childLive, ?_, hs.pnc⟩, ⟨?_, ?_⟩⟩
+  · intro p hpp
+    have := hoff p (by intro e; subst e; exact hp hpp)
+    show (L p).isSome ∧ (R p).isSome
+    rw [this.1, this.2]; exact hs.parentComplete p hpp
+  · intro me hm; rw [ha]; exact h.told.toldS me hm
+  · intro me hm d hd; rw [ha]; exact h.told.toldC me hm d hd
+
+theorem upd_ne {α : Type} (f : Nat → α) (c : Nat) (v : α) (d : Nat) (h : d ≠ c) : upd f c v d = f d := by
+  simp [upd, h]
+@[simp] theorem upd_self {α : Type} (f : Nat → α) (c : Nat) (v : α) : upd f c v c = v := by
+  simp [upd]
+
+theorem onLevel_inv (s : DState) (c : ConnId) (n : Nat) (h : Inv s) : Inv (onLevel s c n) := by
+  unfold onLevel
+  split
+  · rename_i hc
+    have hoff : ∀ d, d ≠ c → upd s.level c (some n) d = s.level d ∧
+        (if n = 0 then upd s.root c (some (s.name c)) else s.root) d = s.root d := by
+      intro d hd
+      refine ⟨upd_ne _ _ _ _ hd, ?_⟩
+      split
+      · exact upd_ne _ _ _ _ hd
+      · rfl
+    by_cases hp : s.parent = some c
+    · simp only [if_pos hp]
+      apply notify_inv
+      refine sinv_announce s c _ _ h.str hoff (by simp) ?_
+      split
+      · simp
+      · exact (h.str.parentComplete c hp).2
+    · simp only [if_neg hp]
+      exact checkNewParent_inv _ c (inv_announce s c _ _ h hoff hp) hc
+  · exact h
+
+theorem onRoot_inv (s : DState) (c : ConnId) (r : Name) (h : Inv s) : Inv (onRoot s c r) := by
+  unfold onRoot
+  split
+  · rename_i hc
+    split
+    · exact h
+    · have hoff : ∀ d, d ≠ c → s.level d = s.level d ∧ upd s.root c (some r) d = s.root d :=
+        fun d hd => ⟨rfl, upd_ne _ _ _ _ hd⟩
+      by_cases hp : s.parent = some c
+      · simp only [if_pos hp]
+        apply notify_inv
+        exact sinv_announce s c _ _ h.str hoff (h.str.parentComplete c hp).1 (by simp)
+      · simp only [if_neg hp]
+        exact checkNewParent_inv _ c (inv_announce s c _ _ h hoff hp) hc
+  · exact h
+
+/-! ### new connections and children -/
+
+theorem addChild_inv (s : DState) (c : ConnId) (h : Inv s) (hc : c ∈ s.live) (hnc : c ∉ s.children)
+    (hpn : ∀ p, s.parent = some p → s.name c ≠ s.name p) (hR : s.toldR c = none) :
+    Inv (addChild s c) := by
+  have hs := h.str
+  have hstr : SInv { s with children := s.children ++ [c] } := by
+    refine ⟨hs.fresh, hs.liveNodup, ?_, hs.parentLive, ?_, hs.parentComplete, ?_⟩
+    · exact List.nodup_append.2 ⟨hs.childNodup, by simp, by
+        intro a ha b hb; simp at hb; subst hb; intro e; subst e; exact hnc ha⟩
+    · intro d hd
+      rcases List.mem_append.1 hd with hd | hd
+      · exact hs.childLive d hd
+      · simp at hd; subst hd; exact hc
+    · intro p hp d hd
+      rcases List.mem_append.1 hd with hd | hd
+      · exact hs.pnc p hp d hd
+      · simp at hd; subst hd; exact hpn p hp
+  have htS := h.told.toldS
+  have htC := h.told.toldC
+  unfold addChild
+  cases hm : s.session with
+  | none =>
+    simp only
+    refine ⟨hstr.congr rfl rfl rfl rfl rfl rfl rfl, ⟨?_, ?_⟩⟩
+    · intro me hme; cases hme
+    · intro me hme; cases hme
+  | some me =>
+    simp only
+    refine ⟨hstr.congr rfl rfl rfl rfl rfl rfl rfl, ⟨?_, ?_⟩⟩
+    · intro me' hme'
+      have e : me = me' := Option.some.inj hme'
+      subst e
+      exact htS me hm
+    · intro me' hme' d hd
+      have e : me = me' := Option.some.inj hme'
+      subst e
+      have hd' : d ∈ s.children ++ [c] := hd
+      show ToldOK (s.adv me) (upd s.toldL c (some (s.adv me).level) d)
+        ((if (s.adv me).level = 0 then s.toldR else upd s.toldR c (some (s.adv me).root)) d)
+      rcases List.mem_append.1 hd' with hd1 | hd1
+      · have hne : d ≠ c := by intro e; subst e; exact hnc hd1
+        have := htC me hm d hd1
+        rw [upd_ne _ _ _ _ hne]
+        split
+        · exact this
+        · rw [upd_ne _ _ _ _ hne]; exact this
+      · have : d = c := by simpa using hd1
+        subst this
+        rw [upd_self]
+        split
+        · rename_i h0; exact ⟨rfl, Or.inr ⟨hR, h0⟩⟩
+        · rw [upd_self]; exact ⟨rfl, Or.inl rfl⟩
+
+theorem checkNewChild_inv (s : DState) (c : ConnId) (h : Inv s) (hc : c ∈ s.live) (hnc : c ∉ s.children)
+    (hR : s.toldR c = none) : Inv (checkNewChild s c) := by
+  unfold checkNewChild
+  split
+  · exact h
+  · rename_i hg
+    split
+    · exact closePeer_inv s c h
+    · split
+      · exact closePeer_inv s c h
+      · refine addChild_inv s c h hc hnc ?_ hR
+        intro p hp e
+        apply hg
+        right
+        simp [DState.parentName, hp, e]
+
+/-- the state right after the new `DistributedPeer` was appended -/
+def withConn (s : DState) (n : Name) : DState :=
+  { s with live := s.live ++ [s.nextConn], nextConn := s.nextConn + 1, name := upd s.name s.nextConn n,
+           level := upd s.level s.nextConn none, root := upd s.root s.nextConn none,
+           toldL := upd s.toldL s.nextConn none, toldR := upd s.toldR s.nextConn none,
+           nL := upd s.nL s.nextConn 0, nR := upd s.nR s.nextConn 0 }
+
+theorem initialized_eq (s : DState) (n : Name) (r : Bool) :
+    initialized s n r = if r then withConn s n else checkNewChild (withConn s n) s.nextConn := rfl
+
+theorem withConn_inv (s : DState) (n : Name) (h : Inv s) : Inv (withConn s n) := by
+  have hs := h.str
+  have hfresh : s.nextConn ∉ s.live := fun hm => Nat.lt_irrefl _ (hs.fresh _ hm)
+  have hpne : ∀ p, s.parent = some p → p ≠ s.nextConn := by
+    intro p hp e; subst e; exact hfresh (hs.parentLive _ hp)
+  have hcne : ∀ d ∈ s.children, d ≠ s.nextConn := by
+    intro d hd e; subst e; exact hfresh (hs.childLive _ hd)
+  have ha : ∀ me, (withConn s n).adv me = s.adv me := fun me =>
+    adv_congr s _ me rfl (fun p hp => ⟨upd_ne _ _ _ _ (hpne p hp), upd_ne _ _ _ _ (hpne p hp)⟩)
+  refine ⟨⟨?_, ?_, hs.childNodup, ?_, ?_, ?_, ?_⟩, ⟨?_, ?_⟩⟩
+  · intro d hd
+    have hd' : d ∈ s.live ++ [s.nextConn] := hd
+    show d < s.nextConn + 1
+    rcases List.mem_append.1 hd' with hd' | hd'
+    · exact Nat.lt_succ_of_lt (hs.fresh d hd')
+    · have : d = s.nextConn := by simpa using hd'
+      subst this; exact Nat.lt_succ_self _
+  · exact List.nodup_append.2 ⟨hs.liveNodup, by simp, by
+      intro a ha b hb; simp at hb; subst hb; intro e; subst e; exact hfresh ha⟩
+  · intro p hp; exact List.mem_append_left _ (hs.parentLive p hp)
+  · intro d hd; exact List.mem_append_left _ (hs.childLive d hd)
+  · intro p hp
+    show (upd s.level s.nextConn none p).isSome ∧ (upd s.root s.nextConn none p).isSome
+    rw [upd_ne _ _ _ _ (hpne p hp), upd_ne _ _ _ _ (hpne p hp)]
+    exact hs.parentComplete p hp
+  · intro p hp d hd
+    show upd s.name s.nextConn n d ≠ upd s.name s.nextConn n p
+    rw [upd_ne _ _ _ _ (hpne p hp), upd_ne _ _ _ _ (hcne d hd)]
+    exact hs.pnc p hp d hd
+  · intro me hm; rw [ha]; exact h.told.toldS me hm
+  · intro me hm d hd
+    rw [ha]
+    show ToldOK (s.adv me) (upd s.toldL s.nextConn none d) (upd s.toldR s.nextConn none d)
+    rw [upd_ne _ _ _ _ (hcne d hd), upd_ne _ _ _ _ (hcne d hd)]
+    exact h.told.toldC me hm d hd
+
+theorem initialized_inv (s : DState) (n : Name) (r : Bool) (h : Inv s) : Inv (initialized s n r) := by
+  have hfresh : s.nextConn ∉ s.live := fun hm => Nat.lt_irrefl _ (h.str.fresh _ hm)
+  rw [initialized_eq]
+  split
+  · exact withConn_inv s n h
+  · refine checkNewChild_inv _ _ (withConn_inv s n h) ?_ ?_ ?_
+    · show s.nextConn ∈ s.live ++ [s.nextConn]; simp
+    · intro hm; exact hfresh (h.str.childLive _ hm)
+    · show upd s.toldR s.nextConn none s.nextConn = none; simp
+
+/-! ### the remaining handlers only touch fields the invariant does not read -/
+
+theorem frame_inv {s s' : DState} (h : Inv s) (h0 : s'.session = s.session) (h1 : s'.live = s.live)
+    (h2 : s'.nextConn = s.nextConn) (h3 : s'.children = s.children) (h4 : s'.parent = s.parent)
+    (h5 : s'.level = s.level) (h6 : s'.root = s.root) (h7 : s'.name = s.name)
+    (h8 : s'.toldServer = s.toldServer) (h9 : s'.toldL = s.toldL) (h10 : s'.toldR = s.toldR) : Inv s' :=
+  ⟨h.str.congr h1 h2 h3 h4 h5 h6 h7, h.told.congr h0 h3 h4 h5 h6 h8 h9 h10⟩
+
+theorem requestUserStats_inv (s : DState) (h : Inv s) : Inv (requestUserStats s) := by
+  unfold requestUserStats
+  split
+  · exact frame_inv h rfl rfl rfl rfl rfl rfl rfl rfl rfl rfl rfl
+  · exact h
+
+theorem onUserStats_inv (s : DState) (n : Name) (sp : Nat) (h : Inv s) : Inv (onUserStats s n sp) := by
+  unfold onUserStats
+  simp only
+  split
+  · split
+    · exact frame_inv h rfl rfl rfl rfl rfl rfl rfl rfl rfl rfl rfl
+    · split
+      · exact frame_inv h rfl rfl rfl rfl rfl rfl rfl rfl rfl rfl rfl
+      · exact frame_inv h rfl rfl rfl rfl rfl rfl rfl rfl rfl rfl rfl
+  · exact h
+
+theorem init_inv : Inv init := by
+  refine ⟨⟨?_, List.nodup_nil, List.nodup_nil, ?_, ?_, ?_, ?_⟩, ⟨?_, ?_⟩⟩ <;> simp [init]
+
+theorem step_inv (s : DState) (op : Op) (h : Inv s) : Inv (step s op) := by
+  cases op with
+  | potentialParents ns => exact frame_inv h rfl rfl rfl rfl rfl rfl rfl rfl rfl rfl rfl
+  | initialized n r => exact initialized_inv s n r h
+  | level c n => exact onLevel_inv s c n h
+  | root c r => exact onRoot_inv s c r h
+  | closed c => exact closePeer_inv s c h
+  | userStats n sp => exact onUserStats_inv s n sp h
+  | minSpeed n =>
+    exact requestUserStats_inv _ (frame_inv h rfl rfl rfl rfl rfl rfl rfl rfl rfl rfl rfl)
+  | speedRatio n =>
+    exact requestUserStats_inv _ (frame_inv h rfl rfl rfl rfl rfl rfl rfl rfl rfl rfl rfl)
+  | resetDistributed => exact reset_inv s h
+  | sessionInit me =>
+    exact notify_inv { s with session := some me } (h.str.congr rfl rfl rfl rfl rfl rfl rfl)
+  | sessionDestroyed =>
+    refine ⟨h.str.congr rfl rfl rfl rfl rfl rfl rfl, ⟨?_, ?_⟩⟩
+    · intro me hm; cases hm
+    · intro me hm; cases hm
+  | serverStateChange => exact frame_inv h rfl rfl rfl rfl rfl rfl rfl rfl rfl rfl rfl
+
+theorem foldl_step_inv (ops : List Op) (s : DState) (h : Inv s) : Inv (ops.foldl step s) := by
+  induction ops generalizing s with
+  | nil => exact h
+  | cons op ops ih => exact ih _ (step_inv s op h)
+
+/-- **The invariant holds after every op sequence.** -/
+theorem run_inv (ops : List Op) : Inv (run ops) := foldl_step_inv ops init init_inv
+
+/-! ### who can become a child: only `_check_if_new_child` → `_add_child` adds to `children` -/
+
+theorem closePeer_children (s : DState) (c d : ConnId) (h : d ∈ (closePeer s c).children) :
+    d ∈ s.children := by
+  unfold closePeer at h
+  split at h
+  · by_cases hp : s.parent = some c
+    · simp only [if_pos hp] at h
+      have := List.mem_of_mem_erase h
+      simpa using this
+    · simp only [if_neg hp] at h
+      exact List.mem_of_mem_erase h
+  · exact h
+
+theorem foldl_closePeer_children (l : List ConnId) (s : DState) (d : ConnId)
+    (h : d ∈ (l.foldl closePeer s).children) : d ∈ s.children := by
+  induction l generalizing s with
+  | nil => exact h
+  | cons c l ih => exact closePeer_children s c d (ih _ h)
+
+theorem reset_children (s : DState) (d : ConnId) (h : d ∈ (reset s).children) : d ∈ s.children := by
+  unfold reset at h
+  simp only at h
+  split at h
+  · exact foldl_closePeer_children _ s d (closePeer_children _ _ d h)
+  · exact foldl_closePeer_children _ s d h
+
+theorem setParent_children (s : DState) (c : ConnId) : (setParent s c).children = s.children := by
+  unfold setParent; simp
+
+theorem checkNewParent_children (s : DState) (c d : ConnId) (h : d ∈ (checkNewParent s c).children) :
+    d ∈ s.children := by
+  unfold checkNewParent at h
+  split at h
+  · split at h
+    · rw [setParent_children] at h; exact h
+    · exact closePeer_children s c d h
+  · exact h
+
+theorem onLevel_children (s : DState) (c : ConnId) (n : Nat) (d : ConnId)
+    (h : d ∈ (onLevel s c n).children) : d ∈ s.children := by
+  unfold onLevel at h
+  split at h
+  · by_cases hp : s.parent = some c
+    · simp only [if_pos hp] at h; simpa using h
+    · simp only [if_neg hp] at h
+      have := checkNewParent_children _ c d h
+      exact this
+  · exact h
+
+theorem onRoot_children (s : DState) (c : ConnId) (r : Name) (d : ConnId)
+    (h : d ∈ (onRoot s c r).children) : d ∈ s.children := by
+  unfold onRoot at h
+  split at h
+  · split at h
+    · exact h
+    · by_cases hp : s.parent = some c
+      · simp only [if_pos hp] at h; simpa using h
+      · simp only [if_neg hp] at h
+        have := checkNewParent_children _ c d h
+        exact this
+  · exact h
+
+/-- the admission guard of `_check_if_new_child`, evaluated in the state *before* the new connection -/
+def Admissible (s : DState) (n : Name) : Prop :=
+  s.accept = true ∧ s.children.length < s.maxChildren ∧ n ∉ s.potential ∧ s.parentName ≠ some n
+
+theorem addChild_children (s : DState) (c : ConnId) : (addChild s c).children = s.children ++ [c] := by
+  unfold addChild; split <;> rfl
+
+theorem checkNewChild_children (s : DState) (c d : ConnId) (h : d ∈ (checkNewChild s c).children) :
+    d ∈ s.children ∨ (d = c ∧ s.accept = true ∧ s.children.length < s.maxChildren ∧
+      s.name c ∉ s.potential ∧ s.parentName ≠ some (s.name c)) := by
+  unfold checkNewChild at h
+  split at h
+  · exact Or.inl h
+  · rename_i hg
+    split at h
+    · exact Or.inl (closePeer_children s c d h)
+    · rename_i hacc
+      split at h
+      · exact Or.inl (closePeer_children s c d h)
+      · rename_i hlen
+        rw [addChild_children] at h
+        rcases List.mem_append.1 h with h | h
+        · exact Or.inl h
+        · right
+          have : d = c := by simpa using h
+          refine ⟨this, ?_, by omega, fun hm => hg (Or.inl hm), fun hm => hg (Or.inr hm)⟩
+          cases hb : s.accept with
+          | true => rfl
+          | false => exact absurd hb hacc
+
+theorem initialized_children (s : DState) (n : Name) (r : Bool) (d : ConnId) (hi : Inv s)
+    (h : d ∈ (initialized s n r).children) :
+    d ∈ s.children ∨ (d = s.nextConn ∧ r = false ∧ Admissible s n) := by
+  rw [initialized_eq] at h
+  split at h
+  · exact Or.inl h
+  · rename_i hr
+    rcases checkNewChild_children _ _ d h with h | ⟨h1, h2, h3, h4, h5⟩
+    · exact Or.inl h
+    · right
+      have hfresh : s.nextConn ∉ s.live := fun hm => Nat.lt_irrefl _ (hi.str.fresh _ hm)
+      have hname : (withConn s n).name s.nextConn = n := by simp [withConn]
+      rw [hname] at h4 h5
+      refine ⟨h1, by simpa using hr, h2, h3, h4, ?_⟩
+      intro hp
+      apply h5
+      unfold DState.parentName at hp ⊢
+      cases hpar : s.parent with
+      | none => rw [hpar] at hp; cases hp
+      | some p =>
+        rw [hpar] at hp
+        have hne : p ≠ s.nextConn := by
+          intro e; subst e; exact hfresh (hi.str.parentLive _ hpar)
+        show Option.map (upd s.name s.nextConn n) s.parent = some n
+        rw [hpar]
+        simp only [Option.map_some] at hp ⊢
+        rw [upd_ne _ _ _ _ hne]; exact hp
+
+/-- a connection only joins `children` by the `initialized _ false` step that created it, and only when the
+admission guard held in the state before that step -/
+theorem step_children (s : DState) (op : Op) (d : ConnId) (hi : Inv s)
+    (h : d ∈ (step s op).children) (hn : d ∉ s.children) :
+    ∃ n, op = .initialized n false ∧ d = s.nextConn ∧ Admissible s n := by
+  cases op with
+  | potentialParents ns => exact absurd h hn
+  | initialized n r =>
+    rcases initialized_children s n r d hi h with h | ⟨h1, h2, h3⟩
+    · exact absurd h hn
+    · subst h2; exact ⟨n, rfl, h1, h3⟩
+  | level c n => exact absurd (onLevel_children s c n d h) hn
+  | root c r => exact absurd (onRoot_children s c r d h) hn
+  | closed c => exact absurd (closePeer_children s c d h) hn
+  | userStats n sp =>
+    have : (onUserStats s n sp).children = s.children := by
+      unfold onUserStats; simp only; split
+      · split
+        · rfl
+        · split <;> rfl
+      · rfl
+    exact absurd (this ▸ h) hn
+  | minSpeed n =>
+    have : (requestUserStats { s with minSpeed := some n }).children = s.children := by
+      unfold requestUserStats; split <;> rfl
+    exact absurd (this ▸ h) hn
+  | speedRatio n =>
+    have : (requestUserStats { s with ratio := some n }).children = s.children := by
+      unfold requestUserStats; split <;> rfl
+    exact absurd (this ▸ h) hn
+  | resetDistributed => exact absurd (reset_children s d h) hn
+  | sessionInit me =>
+    have : (step s (.sessionInit me)).children = s.children := by simp [step]
+    exact absurd (this ▸ h) hn
+  | sessionDestroyed => exact absurd h hn
+  | serverStateChange => exact absurd h hn
+
 end AioslskVerif.Dist
